@@ -33,12 +33,13 @@ theorem skipper_exact (v : TVal) (fuel : Nat) (r : Bytes) (hw : wf v = true) :
     begins with a well-formed struct message (every scalar in its width, every length and count a
     non-negative int32 that fits, every id 16 bits, every element of the container's declared type,
     every field value of the field header's type) whose serialisation is exactly the first `n`
-    bytes.  `wfL` is `wf` except that the element / key / value codes of containers need only be
-    < 128 instead of protocol type codes — they can differ only for *empty* containers inside
-    *skipped* (unknown) fields, which no Thrift skipper inspects. -/
+    bytes.  (`wf` asks of a container's element / key / value code that it be a non-negative int8;
+    for a non-empty container the elements carry that code, so it is a protocol type code; the code of
+    an *empty* container inside skipped data is inspected by no Thrift skipper.  What frugal itself
+    writes has protocol codes everywhere: `C02.codes_are_protocol_codes`.) -/
 theorem success_means_wellformed_prefix (S : Schema) (hS : S.ok = true) (sid : Nat) (b : Bytes)
     (dest v : Val) (n : Nat) (h : decodeM Generated.params S sid b dest = .ok (v, n)) :
-    ∃ fs trailing, wfLFields fs = true ∧ b = ser (.strct fs) ++ trailing ∧ n = (ser (.strct fs)).length :=
+    ∃ fs trailing, wfFields fs = true ∧ b = ser (.strct fs) ++ trailing ∧ n = (ser (.strct fs)).length :=
   decodeM_sound S Instances.params_valid hS sid b dest v n h
 
 /-- in particular the count never exceeds the input: the decoder reads nothing outside it -/
@@ -57,11 +58,38 @@ theorem wellformed_prefix_decodes_as_reader (S : Schema) (hS : S.ok = true) (sid
       (readMessage Generated.params S sid fs trailing.length dest).mapv (·, (ser (.strct fs)).length) :=
   decodeM_refines Instances.params_valid S hS sid fs trailing dest hw
 
+/-- **success exactly when the bytes begin with a well-formed message that a reader for the type
+    accepts**: both directions, for every schema, byte string and destination -/
+theorem success_iff (S : Schema) (hS : S.ok = true) (sid : Nat) (b : Bytes) (dest : Val) :
+    (decodeM Generated.params S sid b dest).isOk = true ↔
+      ∃ fs trailing, wfFields fs = true ∧ b = ser (.strct fs) ++ trailing ∧
+        (readMessage Generated.params S sid fs trailing.length dest).isOk = true := by
+  constructor
+  · intro h
+    cases hd : decodeM Generated.params S sid b dest with
+    | ok p =>
+      obtain ⟨v, n⟩ := p
+      obtain ⟨fs, tr, hw, e, _⟩ := success_means_wellformed_prefix S hS sid b dest v n hd
+      refine ⟨fs, tr, hw, e, ?_⟩
+      rw [e, wellformed_prefix_decodes_as_reader S hS sid fs tr dest hw] at hd
+      cases hr : readMessage Generated.params S sid fs tr.length dest with
+      | ok w => rfl
+      | err k => rw [hr] at hd; cases hd
+      | panic k => rw [hr] at hd; cases hd
+    | err k => rw [hd] at h; cases h
+    | panic k => rw [hd] at h; cases h
+  · rintro ⟨fs, tr, hw, e, hr⟩
+    rw [e, wellformed_prefix_decodes_as_reader S hS sid fs tr dest hw]
+    cases hrr : readMessage Generated.params S sid fs tr.length dest with
+    | ok w => rfl
+    | err k => rw [hrr] at hr; cases hr
+    | panic k => rw [hrr] at hr; cases hr
+
 /-- the skipper alone: a successful skip of `n ≤ len` bytes skipped exactly one well-formed value of
     the requested type -/
 theorem skipper_sound (fuel t : Nat) (b : Bytes) (n : Nat)
     (h : skipType Generated.params fuel t b = .ok n) (hn : n ≤ b.length) :
-    ∃ tv, wfL tv = true ∧ tv.tag = t ∧ b = ser tv ++ b.drop n :=
+    ∃ tv, wf tv = true ∧ tv.tag = t ∧ b = ser tv ++ b.drop n :=
   skipType_sound Instances.params_valid fuel t b n h hn
 
 /-- witness that the `panic` outcome is not vacuous in the model: an unguarded fixed-size read of a
